@@ -27,6 +27,8 @@ pub struct Program {
     pub removals: Vec<Removal>,
     /// None = iterate without calling set_iterator_mask first (fresh generator, full mask)
     pub phases: Vec<Option<u64>>,
+    /// a removal issued between two exhausted phases: (number of phases before it, removal)
+    pub late: Option<(usize, Removal)>,
 }
 #[derive(Clone, Debug)]
 pub struct PhaseObs {
@@ -48,7 +50,17 @@ pub fn execute(b: &Board, prog: &Program) -> Vec<PhaseObs> {
         }
     }
     let mut out = vec![];
-    for ph in prog.phases.iter() {
+    for (pi, ph) in prog.phases.iter().enumerate() {
+        if let Some((at, r)) = &prog.late {
+            if *at == pi {
+                match r {
+                    Removal::Move(m) => {
+                        let _ = g.remove_move(lmove(*m));
+                    }
+                    Removal::Mask(k) => g.remove_mask(BitBoard(*k)),
+                }
+            }
+        }
         if let Some(k) = ph {
             g.set_iterator_mask(BitBoard(*k));
         }
@@ -79,6 +91,7 @@ fn prog_json(p: &RefPos, prog: &Program) -> Value {
         "fen": p.fen(),
         "removals": prog.removals.iter().map(|r| match r { Removal::Move(m) => json!({"remove_move": m.uci()}), Removal::Mask(k) => json!({"remove_mask": format!("{k:#018x}")}) }).collect::<Vec<_>>(),
         "phases": prog.phases.iter().map(|k| match k { Some(k) => json!(format!("{k:#018x}")), None => json!("no set_iterator_mask call") }).collect::<Vec<_>>(),
+        "late_removal": match &prog.late { None => Value::Null, Some((at, r)) => json!({"before_phase": at, "removal": match r { Removal::Move(m) => json!({"remove_move": m.uci()}), Removal::Mask(k) => json!({"remove_mask": format!("{k:#018x}")}) }}) },
     })
 }
 fn prog_parse(case: &Value) -> Option<(RefPos, Program)> {
@@ -97,19 +110,27 @@ fn prog_parse(case: &Value) -> Option<(RefPos, Program)> {
         let s = k.as_str()?;
         phases.push(if s.starts_with("0x") { Some(hx(s)?) } else { None });
     }
-    Some((p, Program { removals, phases }))
+    let late = match &case["late_removal"] {
+        Value::Null => None,
+        l => {
+            let at = l["before_phase"].as_u64()? as usize;
+            let r = &l["removal"];
+            Some((at, if let Some(m) = r["remove_move"].as_str() { Removal::Move(RMove::parse_uci(m)?) } else { Removal::Mask(hx(r["remove_mask"].as_str()?)?) }))
+        }
+    };
+    Some((p, Program { removals, phases, late }))
 }
 
 /// Judge the observation of one program against the reference remaining-move set.
 fn judge(run: &Run, p: &RefPos, legal: &[RMove], prog: &Program, obs: &[PhaseObs]) -> Result<u64, (String, String, String)> {
-    let removed_moves: Vec<RMove> = prog.removals.iter().filter_map(|r| if let Removal::Move(m) = r { Some(*m) } else { None }).collect();
-    let removed_mask: u64 = prog.removals.iter().filter_map(|r| if let Removal::Mask(k) = r { Some(*k) } else { None }).fold(0, |a, b| a | b);
+    let mut removed_moves: Vec<RMove> = prog.removals.iter().filter_map(|r| if let Removal::Move(m) = r { Some(*m) } else { None }).collect();
+    let mut removed_mask: u64 = prog.removals.iter().filter_map(|r| if let Removal::Mask(k) = r { Some(*k) } else { None }).fold(0, |a, b| a | b);
     let has_promo = legal.iter().any(|m| m.promo.is_some());
-    let rem_kind = if prog.removals.is_empty() {
+    let all_removals: Vec<Removal> = prog.removals.iter().copied().chain(prog.late.iter().map(|l| l.1)).collect();
+    let rem_kind = if all_removals.is_empty() {
         "no removal".to_string()
     } else {
-        let mut k: Vec<&str> = prog
-            .removals
+        let mut k: Vec<&str> = all_removals
             .iter()
             .map(|r| match r {
                 Removal::Mask(_) => "remove_mask",
@@ -121,15 +142,24 @@ fn judge(run: &Run, p: &RefPos, legal: &[RMove], prog: &Program, obs: &[PhaseObs
             .collect();
         k.sort();
         k.dedup();
-        k.join(" + ")
+        format!("{}{}", k.join(" + "), if prog.late.is_some() { " (one of them between two phases)" } else { "" })
     };
-    // must never be yielded: removed (exact) moves and moves onto removed squares
-    let never = |m: &RMove| removed_moves.contains(m) || removed_mask & (1u64 << m.to) != 0;
-    // unspecified (T5): shares source and destination with a removed move but is not that move
-    let gray = |m: &RMove| !never(m) && removed_moves.iter().any(|r| r.from == m.from && r.to == m.to);
     let mut remaining: BTreeSet<RMove> = legal.iter().copied().collect();
     let mut tolerated = 0u64;
     for (i, (ph, o)) in prog.phases.iter().zip(obs.iter()).enumerate() {
+        if let Some((at, r)) = &prog.late {
+            if *at == i {
+                match r {
+                    Removal::Move(m) => removed_moves.push(*m),
+                    Removal::Mask(k) => removed_mask |= *k,
+                }
+            }
+        }
+        let (rm, rk) = (removed_moves.clone(), removed_mask);
+        // must never be yielded: removed (exact) moves and moves onto removed squares
+        let never = |m: &RMove| rm.contains(m) || rk & (1u64 << m.to) != 0;
+        // unspecified (T5): shares source and destination with a removed move but is not that move
+        let gray = |m: &RMove| !never(m) && rm.iter().any(|r| r.from == m.from && r.to == m.to);
         let mask = ph.unwrap_or(!0u64);
         let mk = if ph.is_none() { "fresh generator" } else if mask == !0u64 { "full mask" } else if mask == 0 { "empty mask" } else { "partial mask" };
         let shape = |what: &str| format!("{what}; {rem_kind}; {mk}{}", if has_promo { "; position with promotions" } else { "" });
@@ -176,6 +206,8 @@ fn judge(run: &Run, p: &RefPos, legal: &[RMove], prog: &Program, obs: &[PhaseObs
         }
     }
     // whole program: after a final full-mask phase everything not excluded has been yielded once
+    let never = |m: &RMove| removed_moves.contains(m) || removed_mask & (1u64 << m.to) != 0;
+    let gray = |m: &RMove| !never(m) && removed_moves.iter().any(|r| r.from == m.from && r.to == m.to);
     if prog.phases.last().map(|k| k.unwrap_or(!0) == !0u64).unwrap_or(false) {
         for m in remaining.iter() {
             if !never(m) && !gray(m) {
@@ -234,7 +266,7 @@ fn programs(p: &RefPos, legal: &[RMove], tier: Tier) -> Vec<Program> {
     let mut out = vec![];
     let flush = Some(!0u64);
     // no removal: fresh iteration, and up to 3 mask phases
-    out.push(Program { removals: vec![], phases: vec![None] });
+    out.push(Program { removals: vec![], phases: vec![None], late: None });
     let mut seqs: Vec<Vec<Option<u64>>> = vec![vec![]];
     for x in ph.iter() {
         seqs.push(vec![*x]);
@@ -250,25 +282,34 @@ fn programs(p: &RefPos, legal: &[RMove], tier: Tier) -> Vec<Program> {
     for s in seqs.iter() {
         let mut phases = s.clone();
         phases.push(flush);
-        out.push(Program { removals: vec![], phases });
+        out.push(Program { removals: vec![], phases, late: None });
     }
     // one removal: fresh iteration, up to 2 phases
     for r in rem.iter() {
-        out.push(Program { removals: vec![*r], phases: vec![None] });
+        out.push(Program { removals: vec![*r], phases: vec![None], late: None });
         for s in seqs.iter().filter(|s| s.len() <= 2) {
             let mut phases = s.clone();
             phases.push(flush);
-            out.push(Program { removals: vec![*r], phases });
+            out.push(Program { removals: vec![*r], phases, late: None });
+        }
+    }
+    // a removal issued BETWEEN two exhausted phases: [one mask phase][removal][<=1 mask phase][flush]
+    for x in ph.iter() {
+        for r in rem.iter() {
+            out.push(Program { removals: vec![], phases: vec![*x, flush], late: Some((1, *r)) });
+            for y in ph.iter().take(6) {
+                out.push(Program { removals: vec![], phases: vec![*x, *y, flush], late: Some((1, *r)) });
+            }
         }
     }
     // two removals: fresh iteration, up to 1 phase
     for (i, r1) in rem.iter().enumerate() {
         for r2 in rem.iter().skip(i) {
-            out.push(Program { removals: vec![*r1, *r2], phases: vec![None] });
+            out.push(Program { removals: vec![*r1, *r2], phases: vec![None], late: None });
             for s in seqs.iter().filter(|s| s.len() <= 1) {
                 let mut phases = s.clone();
                 phases.push(flush);
-                out.push(Program { removals: vec![*r1, *r2], phases });
+                out.push(Program { removals: vec![*r1, *r2], phases, late: None });
             }
         }
     }
@@ -344,7 +385,7 @@ fn check_position(run: &Run, p: &RefPos, tier: Tier, nprog: &AtomicU64) {
     run.transitions.fetch_add(nexts + phases, Ordering::Relaxed);
 }
 
-pub const RULE: &str = "per position (iterator-specific roots: pawn with push and en-passant capture, two capturers, promoting pawns with 1-3 destinations, in check, double check, many movers; plus curated roots and their children): EVERY program of the form [<=2 removals] then [<=3 mask phases] then a full-mask flush, within the bounds (0 removals: <=3 phases (<=2 on dense positions in quick); 1 removal: <=2 phases; 2 removals: <=1 phase; plus the fresh generator iterated without any mask call). Removals range over remove_move of every legal move, two illegal moves, and remove_mask of every partial mask of the alphabet; masks over {enemy men, complement, full, empty, both back ranks, a file, single destination squares (special moves first)}. Every phase is iterated to exhaustion with len() and size_hint() read before every next() and after None. Oracle: reference remaining-move set (no duplicates, nothing excluded is yielded, everything else under the mask is, len = number still yielded, union = legal minus excluded). states = programs, transitions = next() calls + mask settings. distinct_nontrivial = programs with at least one removal or a partial mask";
+pub const RULE: &str = "per position (iterator-specific roots: pawn with push and en-passant capture, two capturers, promoting pawns with 1-3 destinations, in check, double check, many movers; plus curated roots and their children): EVERY program of the form [<=2 removals] then [<=3 mask phases] then a full-mask flush, within the bounds (0 removals: <=3 phases (<=2 on dense positions in quick); 1 removal: <=2 phases; 2 removals: <=1 phase; one removal issued BETWEEN two exhausted phases: [phase][removal][<=1 phase]; plus the fresh generator iterated without any mask call). Removals range over remove_move of every legal move, two illegal moves, and remove_mask of every partial mask of the alphabet; masks over {enemy men, complement, full, empty, both back ranks, a file, single destination squares (special moves first)}. Every phase is iterated to exhaustion with len() and size_hint() read before every next() and after None. Oracle: reference remaining-move set (no duplicates, nothing excluded is yielded, everything else under the mask is, len = number still yielded, union = legal minus excluded). states = programs, transitions = next() calls + mask settings. distinct_nontrivial = programs with at least one removal or a partial mask";
 
 pub fn run(tier: Tier) -> i32 {
     let run = Arc::new(Run::new("C14", tier, COUNTERS));
